@@ -12,6 +12,11 @@ exec(m.group(0), ns)
 T = ns['T']
 M = json.load(open('/verif/seeded/MATRIX.json'))
 keys = [k for k in sorted(T) if re.search(r'-R$', k) and k in M]
+# first-contact verdicts that a later addition changed (the table reports first contact)
+FIRST = {'C01-R': 'MISSED'}
+for k_, v_ in FIRST.items():
+    if k_ in M:
+        M[k_] = dict(M[k_], own_check_verdict=v_, caught_by=[])
 caught = [k for k in keys if M[k].get('own_check_verdict') == 'CAUGHT']
 sib = [k for k in keys if M[k].get('own_check_verdict') != 'CAUGHT' and M[k].get('caught_by')]
 broken = [k for k in keys if M[k].get('own_check_verdict') == 'ANALYSIS-BROKEN' and not M[k].get('caught_by')]
@@ -20,8 +25,8 @@ wave = '''#### Eighth wave (measurement only: first contact, no triage)
 
 Made in the last ninety minutes with the same instructions as the seventh wave (one change per property, agents told all 218
 earlier descriptions, 25 minutes each).  Seventeen were delivered; three (for C05, C15, C17) failed a unit test or hung the test
-run when they were re-built here and were not kept.  %d changes were confirmed.  **Nothing in /verif was changed in response
-to them** - there was no time left to re-run the complete seed and false-alarm matrices after a rule change - so this table is
+run when they were re-built here and were not kept.  %d changes were confirmed.  **No rule was changed in response to them** - there was no time left to re-run the complete seed and false-alarm matrices after a
+rule change (the one exception, an added input case, is described below the table) - so this table is
 what a maintainer can expect from the machinery as it stands on a change it has never seen: %d caught by the property's own
 check%s, %d answered *undecided* (exit 2), %d missed (exit 0).  The missed ones are the honest
 residue: each names a clause that no rule decides yet.
@@ -35,9 +40,11 @@ for k in keys:
     cell = ('caught by ' + ', '.join(cb)) if cb else ('undecided (exit 2)' if v == 'ANALYSIS-BROKEN' else '**missed**')
     wave += '| %s | %s | %s | %s |\n' % (k, T[k][1].replace('|', '/'), T[k][2].replace('|', '/'), cell)
 wave += '''
-What the seven misses say about the rules (none of this was acted on):
-C01-R - the string-packing rule interprets `genString` on short literals only, no literal of 128 or more characters (sign of the
-length byte); C04-R - the literal rule ends every literal with a separator, never with the end of the file; C06-R - no rule of
+What the seven misses say about the rules (with one exception none of this was acted on):
+C01-R - the string-packing rule interpreted `genString` on short literals only, no literal of 128 or more characters (sign of the
+length byte).  This one is a pure addition of inputs to a semantic rule: literals of 127, 128, 200 and 255 characters were added to
+C01-R6 (and thereby to its imports C09-R9 and C11-R4); HEAD holds, C01, C09 and C11 were re-run on all 38 behaviour-preserving
+variants (no violation) and on all their seeds (nothing lost), and C01-R is caught since; C04-R - the literal rule ends every literal with a separator, never with the end of the file; C06-R - no rule of
 C06 compares how the two mains map the run() result to the exit status (C14-R3 answers *undecided* on this change);
 C08-R - the frame rule follows `incOffset` / `decOffset`, a spill word claimed with `setOffset(offset + 1)` is not counted as a
 spill; C09-R - the offset-assigned protocol covers symbols *with a scope*, the new predicate makes procedure symbols take that
